@@ -128,22 +128,42 @@ def run(R):
     he = R.body("C13.expiry", PQ + "::has_expired")
     if he is not None:
         prep(he)
-        ta = Taint(he, through="all")
-        age = ta.closure(call_results(["std::time::SystemTime::duration_since"])(he))
+        from rules import _chain_calls
+        DEFAULTING = ("::unwrap_or_default", "::unwrap_or", "::unwrap_or_else", "Result::ok", "::map_or", "::map_or_else", "::is_ok_and", "::is_some_and")
         ok = False
+        chain = []
         for c in compare_sites(he):
-            a, b = c["a"], c["b"]
-            if op_local(a) in age and b[0] == "c" and "QUOTE_EXPIRATION_SECS" in b[1] and c["op"] == "Gt" and c["d"] == 0:
-                ok = True
-            if op_local(b) in age and a[0] == "c" and "QUOTE_EXPIRATION_SECS" in a[1] and c["op"] == "Lt" and c["d"] == 0:
-                ok = True
+            for side, other, want in (("a", "b", "Gt"), ("b", "a", "Lt")):
+                k = c[other]
+                if not (k[0] == "c" and "QUOTE_EXPIRATION_SECS" in k[1]) or op_local(c[side]) is None:
+                    continue
+                names, _ = _chain_calls(F, he, op_local(c[side]))
+                chain = names
+                if any(n.endswith("SystemTime::duration_since") for n in names) and c["op"] == want and c["d"] == 0:
+                    ok = True
         if not ok:
-            R.viol("C13.expiry", "expiry-polarity", "has_expired is not `age_secs > QUOTE_EXPIRATION_SECS`", he, he.lines[0])
-        R.inst("C13.expiry", "K10 polarity", "expired ⇔ age > QUOTE_EXPIRATION_SECS", 1, ok)
-        # future-dated ⇒ expired : `return true` reachable only through the Err side of duration_since
-        R.gate("C13.expiry.future", he, RetSink("true"), [[CallGuard(["std::time::SystemTime::duration_since"], ("Err",), "duration_since(timestamp) is Err (future-dated)")]],
-               descr="future-dated quote is reported expired")
-        R.must_call("C13.expiry.now", PQ + "::has_expired", ["std::time::SystemTime::now"], "age measured from now")
+            R.viol("C13.expiry", "expiry-polarity", "has_expired is not `age_secs(now - timestamp) > QUOTE_EXPIRATION_SECS`", he, he.lines[0])
+        R.inst("C13.expiry", "K10 polarity", "expired ⇔ age > QUOTE_EXPIRATION_SECS (age may come through a helper)", 1, ok, {"chain": chain[:8]})
+        oknow = any(n.endswith("SystemTime::now") for n in chain)
+        if not oknow:
+            R.viol("C13.expiry.now", "age-from-now", "the quote's age is not measured from SystemTime::now()", he, he.lines[0])
+        R.inst("C13.expiry.now", "K6 flows-to", "age = now.duration_since(timestamp)", 1, oknow)
+        # future-dated ⇒ expired: the failure of duration_since must surface as `true`, not be defaulted away
+        erased = [n for n in chain if any(n.endswith(d) for d in DEFAULTING)]
+        direct = any(b["term"]["k"] == "call" and callee_matches(b["term"], ["std::time::SystemTime::duration_since"]) for b in he.blocks)
+        if erased:
+            R.viol("C13.expiry.future", "future-defaulted:%s" % erased[0].split("::")[-1],
+                   "a quote dated in the future is not reported expired: the error of duration_since is replaced by a default (%s) before the comparison" % erased[0], he, he.lines[0])
+            R.inst("C13.expiry.future", "K4 gate", "future-dated quote is reported expired", 0, False)
+        elif direct:
+            R.gate("C13.expiry.future", he, RetSink("true"), [[CallGuard(["std::time::SystemTime::duration_since"], ("Err",), "duration_since(timestamp) is Err (future-dated)")]],
+                   descr="future-dated quote is reported expired")
+        else:
+            # a helper propagates the failure as Err/None: has_expired must turn that into `true`
+            helpers = [n for n in chain if n in F.by_npath and n.startswith("ant_evm::")]
+            gds = [CallGuard([h], (st,), "%s is %s" % (h.split("::")[-1], st)) for h in helpers for st in ("Err", "None")]
+            R.gate("C13.expiry.future", he, RetSink("true"), [gds] if gds else [[CallGuard(["<none>"], ("Err",), "age helper fails")]],
+                   descr="future-dated quote is reported expired (through the age helper's failure)")
     pe = R.body("C13.expiry.proof", POP + "::has_expired")
     if pe is not None:
         R.must_call("C13.expiry.proof", POP + "::has_expired", ["*Iterator::any", "core::iter::traits::iterator::Iterator::any"], "a proof is expired if any quote is")
